@@ -1,10 +1,12 @@
 #!/venv/bin/python
 """Run registered checks against a seeded change and record which ones catch it.
 
-    /venv/bin/python harness/eval_seeded.py seeded/<id> [--props C01,C02 | --all] [--tier quick]
+    /venv/bin/python harness/eval_seeded.py seeded/<id> [--props C01,C02 | --all] [--tier quick] [--in-repo]
 
-Applies seeded/<id>/patch.diff to /repo (git apply), runs the checks, ALWAYS reverts (git checkout -- .),
-and writes seeded/<id>/result.json. Never commits anything in /repo."""
+Default: a scratch worktree of /repo HEAD is created under /tmp, the patch is applied THERE and the checks run
+with SELFIES_REPO=<scratch> (so that /repo itself stays untouched while other work reads it); the worktree
+is removed afterwards. With --in-repo the patch is applied to /repo itself (git apply), the checks run, and
+it is ALWAYS reverted (git checkout -- .). Writes seeded/<id>/result.json. Never commits anything."""
 import argparse
 import json
 import os
@@ -30,18 +32,30 @@ def main():
     ap.add_argument("--all", action="store_true")
     ap.add_argument("--tier", default="quick")
     ap.add_argument("--seed", default="0")
+    ap.add_argument("--in-repo", action="store_true")
     args = ap.parse_args()
     d = os.path.join(VERIF, args.dir) if not os.path.isabs(args.dir) else args.dir
     meta = json.load(open(os.path.join(d, "meta.json")))
     props = ALL if args.all else (args.props.split(",") if args.props else [meta["property"]])
-    st = sh("git -C %s status --porcelain" % REPO).stdout.decode().strip()
-    if st:
-        print("refusing: /repo has uncommitted changes:\n" + st)
-        return 2
     patch = os.path.join(d, "patch.diff")
-    r = sh("git -C %s apply %s" % (REPO, patch))
+    if args.in_repo:
+        target = REPO
+        st = sh("git -C %s status --porcelain" % REPO).stdout.decode().strip()
+        if st:
+            print("refusing: /repo has uncommitted changes:\n" + st)
+            return 2
+    else:
+        target = "/tmp/seedeval_%s_%d" % (os.path.basename(d.rstrip("/")), os.getpid())
+        sh("git -C %s worktree remove --force %s" % (REPO, target))
+        r = sh("git -C %s worktree add -q %s HEAD" % (REPO, target))
+        if r.returncode != 0:
+            print("cannot create scratch worktree:", r.stdout.decode())
+            return 2
+    r = sh("git -C %s apply %s" % (target, patch))
     if r.returncode != 0:
         print("patch does not apply:", r.stdout.decode())
+        if not args.in_repo:
+            sh("git -C %s worktree remove --force %s" % (REPO, target))
         return 2
     results = {}
     try:
@@ -49,6 +63,7 @@ def main():
             t0 = time.time()
             env = dict(os.environ)
             env["VERIF_SEED"] = args.seed
+            env["SELFIES_REPO"] = target
             r = subprocess.run(["/venv/bin/python", os.path.join(HERE, "check.py"), "--property", p, "--tier", args.tier],
                                cwd=VERIF, stdout=subprocess.PIPE, stderr=subprocess.STDOUT, env=env, timeout=7200)
             out = r.stdout.decode(errors="replace")
@@ -72,10 +87,13 @@ def main():
             results[p] = info
             print(p, info.get("exit"), info.get("kind"), info.get("sig"), info.get("broken"), info.get("streams"), "%.0fs" % info["wall_s"])
     finally:
-        sh("git -C %s checkout -- ." % REPO)
-        st = sh("git -C %s status --porcelain" % REPO).stdout.decode().strip()
-        if st:
-            print("WARNING: /repo not clean after revert:\n" + st)
+        if args.in_repo:
+            sh("git -C %s checkout -- ." % REPO)
+            st = sh("git -C %s status --porcelain" % REPO).stdout.decode().strip()
+            if st:
+                print("WARNING: /repo not clean after revert:\n" + st)
+        else:
+            sh("git -C %s worktree remove --force %s" % (REPO, target))
     out_path = os.path.join(d, "result.json")
     old = {}
     if os.path.exists(out_path):
